@@ -10,6 +10,8 @@ import orbits
 
 ID = "C05"
 LEAN_TARGETS = ["PV.Props.C05"]
+# T-C tie (DESIGN 2.3): kernels traced from the current source are proved equal to the model over the reals
+EQUIV = {'PV.Equiv.Astro': ['gmst_eq', 'observer_position_eq'], 'PV.Equiv.Look': ['r_clip1', 'look_module_eq', 'look_method_eq']}
 RULE = ("(TLE, time, observer) triples: observers uniform over the globe, at the poles and the date line, at the EXACT "
         "sub-satellite point (lon/lat returned by get_lonlatalt, altitude 0 and just below the satellite), at the antipode, "
         "with altitudes 0-9 km; module-level function also with geostationary altitudes and array inputs; correspondence: "
